@@ -85,7 +85,7 @@ def execute(case, script=None):
     _r.seed(f"global:{case.get('verif_seed')}:{case.get('index')}")
     view = MDPView(case['spec'])
     ctx = RunCtx(PROP, view)
-    ctx.declare_probes('fresh_model_after_other_model', 'rerun_after_abort', 'aborts_delivered', 'nested_run', 'second_derived_mdp_alive', 'second_planned_option_alive', 'option_raised_must', 'option_returned_must', 'boundary_raised', 'start_terminal',
+    ctx.declare_probes('base_model_with_warm_caches', 'fresh_model_after_other_model', 'rerun_after_abort', 'aborts_delivered', 'nested_run', 'second_derived_mdp_alive', 'second_planned_option_alive', 'option_raised_must', 'option_returned_must', 'boundary_raised', 'start_terminal',
                        'smdp_call_raised', 'smdp_dist_checked', 'primitive_checked', 'static_override_sets', 'plan_option',
                        'subtask_plan_checked', 'f7_before', 'f7_boundary', 'f7_after', 'cross_call_checked', 'smdp_actions_asked', 'option_run_longer_than_330_steps')
     sched = make_scheduler(case, script, ctx)
@@ -490,10 +490,16 @@ def _static_augment(ctx, view, mdp, cfg, augment):
     if 'next_state_dist' in ov:
         kw['next_state_dist'] = lambda s, a: DictDistribution({s: 1.0})
     if 'reward' in ov:
-        kw['reward'] = lambda s, a, ns: view.R[sid[s], aid[a], sid[ns]] + 100.0
+        kw['reward'] = lambda s, a, ns: view.R.get((sid[s], aid[a], sid[ns]), 0.0) + 100.0     # (total: an overridden next_state_dist creates new transitions)
     if 'is_absorbing' in ov:
         kw['is_absorbing'] = lambda s: sid[s] in alt_abs
     base_sl, base_al = list(mdp.state_list), list(mdp.action_list)
+    if (len(ov) + view.n) % 2 == 0:
+        # the base model arrives USED: its matrix views and reachable-state cache exist before anything is derived from it
+        ctx.probe('base_model_with_warm_caches')
+        for attr in ('transition_matrix', 'reward_matrix', 'action_matrix', 'initial_state_vec', 'absorbing_state_vec'):
+            getattr(mdp, attr)
+        mdp.reachable_states()
     if 'state_list' in ov:
         kw['state_list'] = tuple(reversed(base_sl))
     if 'action_list' in ov:
@@ -538,6 +544,27 @@ def _static_augment(ctx, view, mdp, cfg, augment):
     chk(list(aug.action_list) == (list(reversed(base_al)) if 'action_list' in ov else base_al), lambda: f"action_list: {list(aug.action_list)} vs base {base_al}")
     init = {sid[s]: p for s, p in aug.initial_state_dist().items() if p > 0}
     chk(init == ({view.N - 1: 1.0} if 'initial_state_dist' in ov else view.init), lambda: f"initial_state_dist: {init}")
+    # the derived MDP's second entry point: its matrix views must describe the same model as its functions
+    # (not when the transitions are overridden but the reward is not: the base reward is undefined on the new transitions)
+    matrix_views = not ('next_state_dist' in ov and 'reward' not in ov)
+    try:
+        if not matrix_views:
+            raise StopIteration
+        sl, al = list(aug.state_list), list(aug.action_list)
+        Tm, Rm, av = aug.transition_matrix, aug.reward_matrix, aug.absorbing_state_vec
+    except StopIteration:
+        sl = []
+    except Exception as e:
+        raise Violation('exception', f"augment({sorted(ov)}): matrix views raised {type(e).__name__}: {e}")
+    for si, s_ in enumerate(sl):
+        chk((not aug.is_absorbing(s_)) or bool(av[si]), lambda: f"matrix-views: absorbing_state_vec misses the absorbing state {sid[s_]}")
+        for a_ in aug.actions(s_):
+            ai = al.index(a_)
+            d = {t_: p for t_, p in aug.next_state_dist(s_, a_).items() if p > 0}
+            for ni, t_ in enumerate(sl):
+                chk(abs(Tm[si, ai, ni] - d.get(t_, 0.0)) <= 1e-12, lambda: f"matrix-views: transition_matrix[{sid[s_]},{aid[a_]},{sid[t_]}] = {Tm[si, ai, ni]!r}, next_state_dist gives {d.get(t_, 0.0)!r}")
+                if t_ in d:
+                    chk(Rm[si, ai, ni] == aug.reward(s_, a_, t_), lambda: f"matrix-views: reward_matrix[{sid[s_]},{aid[a_]},{sid[t_]}] = {Rm[si, ai, ni]!r}, reward() gives {aug.reward(s_, a_, t_)!r}")
     for s in range(view.N):
         acts = [aid[a] for a in aug.actions(sk[s])]
         chk(acts == (list(reversed(view.A[s])) if 'actions' in ov else view.A[s]), lambda: f"actions: at {s} {acts} vs {view.A[s]}")
